@@ -90,6 +90,17 @@ def floatOps (op : String) (args : List String) : Option String :=
   | "to_lonlat", [a, b] => do let a ← parseF? a; let b ← parseF? b; pure ("ok " ++ showFF (toLonLat a b))
   | "cell_area", [r] => do let r ← parseInt? r; pure ("ok " ++ showF (cellArea r))
   | "quintant_polar", [g] => do let g ← parseF? g; pure s!"ok {getQuintantPolar g}"
+  | "sph_triangles", [] =>
+      -- the 240 spherical triangles the projection works with (12 origins x 10 face triangles x plain / reflected):
+      -- `o i r ax ay az bx by bz cx cy cz` per triangle, separated by " | "
+      let items := (List.range 12).flatMap fun o => (List.range 10).flatMap fun i => [false, true].map fun r =>
+        match computeSphericalTriangle i o r with
+        | .ok st => s!"{o} {i} {if r then 1 else 0} {showF st.a.x} {showF st.a.y} {showF st.a.z} {showF st.b.x} {showF st.b.y} {showF st.b.z} {showF st.c.x} {showF st.c.y} {showF st.c.z}"
+        | _ => s!"{o} {i} {if r then 1 else 0} failed"
+      some ("ok " ++ " | ".intercalate items)
+  | "crs_vertex", [x, y, z] => do
+      let x ← parseF? x; let y ← parseF? y; let z ← parseF? z
+      pure (showOutcome (fun (v : V3) => s!"{showF v.x} {showF v.y} {showF v.z}") (crsGetVertex ⟨x, y, z⟩))
   | "consts", [] =>
       let pc := pentagonConstants
       let (b0, b1, b2, b3) := pc.basis
